@@ -237,6 +237,7 @@ def explore(case):
                     res.fail(site="SO3Mrp.shadow_if_necessary", clause="shadow_preserves_rotation_and_norm_le_1", cls=rtag,
                              detail=dict(r=p0, result=q), sub="convert", case=case)
     numeric_path(res, srcs[:: max(1, len(srcs) // 12)], case)
+    matrix_forms(res, srcs[:: max(1, len(srcs) // 40)], case)
     res.samples.append(dict(n_sources=len(srcs), n_words=len(words), example=srcs[min(5, len(srcs) - 1)][0]))
     return res
 
@@ -276,6 +277,19 @@ def numeric_path(res, srcs, case):
                         continue
                     if not numapi._same(r2, r1, 0.0)[0]:
                         res.fail(site="SO3%s.from_%s" % (to, frm), clause="numeric_api:same_result_on_reuse", cls=rtag, detail=dict(info, first=r1, second=r2), sub="convert", case=case)
+                    # the same numbers supplied in another form: numeric SX, structurally sparse, expression of a symbol
+                    for form in numapi.FORMS:
+                        if form == "sparse" and np.all(np.asarray(p0) != 0):
+                            continue
+                        res.count("evaluations")
+                        res.count("input_form_calls")
+                        try:
+                            rf = numapi.eval_form(Gf, Gf.algebra, "g", lambda Xe: getattr(Gt, "from_" + frm)(Xe).param, (p0,), form).reshape(-1)
+                        except Exception as ex:
+                            res.fail(site="SO3%s.from_%s" % (to, frm), clause="numeric_api:call_raises", cls="form=" + form, detail=dict(info, error="%s: %s" % (type(ex).__name__, str(ex)[:200])), sub="convert", case=case)
+                            continue
+                        if not same_meaning(rf, want):
+                            res.fail(site="SO3%s.from_%s" % (to, frm), clause="numeric_api:result_independent_of_input_form", cls="form=" + form, detail=dict(info, got=rf, want=want), sub="convert", case=case)
                     if not numapi._same(numapi.ev(X.param).reshape(-1), p0, 0.0)[0]:
                         res.fail(site="SO3%s.from_%s" % (to, frm), clause="numeric_api:arguments_not_mutated", cls=rtag, detail=dict(info, after=numapi.ev(X.param).reshape(-1)), sub="convert", case=case)
                     # reassign the parameters of the same element object: the next conversion must see the new value
@@ -290,6 +304,38 @@ def numeric_path(res, srcs, case):
                             res.fail(site="SO3%s.from_%s" % (to, frm), clause="numeric_api:param_reassignment_takes_effect", cls=rtag,
                                      detail=dict(first=p0, then=p2, got=r4, want=want4), sub="convert", case=case)
                         break
+
+
+def matrix_forms(res, srcs, case):
+    """from_Matrix given the same rotation matrix as numeric SX and as SX whose exact zeros are structural"""
+    from .. import numapi
+    for tag, R, reps in srcs:
+        for _, pR in reps["Dcm"][:1]:
+            Rm = np.asarray(pR, dtype=float).reshape(3, 3, order="F")
+            for to in KINDS:
+                f = conv(to, "Matrix")
+                if f is None:
+                    continue
+                want = np.array(f.call([ca.DM(Rm)])[0], dtype=float).reshape(-1)
+                Ms = ca.SX(3, 3)
+                for i in range(3):
+                    for j in range(3):
+                        if Rm[i, j] != 0:
+                            Ms[i, j] = float(Rm[i, j])
+                for form, M in (("sx", ca.SX(ca.DM(Rm))), ("sparse", Ms)):  # the entry points are typed ca.SX: DM is not an accepted form
+                    if form == "sparse" and np.all(Rm != 0):
+                        continue
+                    res.count("evaluations")
+                    res.count("input_form_calls")
+                    try:
+                        got = numapi.ev(lib.SO3S[to].from_Matrix(M).param).reshape(-1)
+                    except Exception as ex:
+                        res.fail(site="SO3%s.from_Matrix" % to, clause="numeric_api:call_raises", cls="form=" + form, detail=dict(source=tag, R=Rm, error="%s: %s" % (type(ex).__name__, str(ex)[:200])), sub="convert", case=case)
+                        continue
+                    ok = numapi._same(got, want, 1e-11)[0] or (np.all(np.isfinite(got)) and np.all(np.isfinite(want)) and
+                                                             ref.rot_dist(gutil.ref_R_of_slot(to, got), gutil.ref_R_of_slot(to, want)) <= 1e-9)
+                    if not ok:
+                        res.fail(site="SO3%s.from_Matrix" % to, clause="numeric_api:result_independent_of_input_form", cls="form=" + form, detail=dict(source=tag, R=Rm, got=got, want=want), sub="convert", case=case)
 
 
 def _judge(res, site, kind, p, Rsrc, band, rtag, info, case, word_len=1):
